@@ -1,1 +1,813 @@
-/- C10 — property theorems (stub: not built yet) -/
+import Rivaas.Spec.Contain
+/-
+C10 — Panics and timeouts are contained.
+
+Part 1 (recovery) is about the shared chain machine `Rivaas.Chain` (Model/Chain.lean) with the
+recovery middleware — `recovers := true`, body `[Next]` — at position 0, as `app.New` installs it.
+Part 2 (timeout) is about the two-thread system `Rivaas.Timeout` (Model/Timeout.lean), for **every
+schedule**.
+-/
+namespace Rivaas.C10
+
+/-! ## Part 1 — recovery contains every panic -/
+section Recovery
+open Rivaas.Chain
+
+/-- the real recovery middleware as a chain position: deferred `recover`, then `c.Next()` -/
+def recoveryMw : Prog := { recovers := true, acts := [.next] }
+
+/-- As shipped (before the K10c `fix:` commit `handlePanic` did not abort the chain):
+    `[recovery; A panics; B panics]` — B is entered *after* the recovered panic, outside the
+    recovery frame, and its panic leaves `ServeHTTP`. Reproduced on the real code (corpus/C10). -/
+theorem asis_escape :
+    let cfg : Cfg := { abortOnRecover := false }
+    let progs : List Prog := [recoveryMw, { acts := [.panic 0] }, { acts := [.panic 1] }]
+    (exec cfg progs).escaped = some 1 ∧
+    (exec cfg progs).trace = [.enter 0, .enter 1, .unwound 1, .exit 0, .enter 2, .unwound 2] := by
+  decide
+
+/-- as shipped, second shape: the next handler writes behind the 500 body -/
+theorem asis_second_write :
+    let cfg : Cfg := { abortOnRecover := false }
+    let progs : List Prog := [recoveryMw, { acts := [.panic 1] }, { acts := [.write] }]
+    (exec cfg progs).body = [.rec500, .h 2] := by
+  decide
+
+/-- the repaired code on the same chains: B never starts, nothing escapes, one 500 body -/
+theorem fixed_same_chains :
+    let p1 : List Prog := [recoveryMw, { acts := [.panic 0] }, { acts := [.panic 1] }]
+    let p2 : List Prog := [recoveryMw, { acts := [.panic 1] }, { acts := [.write] }]
+    (exec {} p1).escaped = none ∧ (exec {} p1).trace = [.enter 0, .enter 1, .unwound 1, .exit 0] ∧
+    (exec {} p2).body = [.rec500] ∧ (exec {} p2).status = some .rec500 := by
+  decide
+
+/-- the chain is over: aborted / cancelled-with-check, or the cursor is past the last position -/
+def Done (cfg : Cfg) (progs : List Prog) (s : St) : Prop :=
+  s.stopped cfg = true ∨ (progs.length : Int) ≤ s.idx + 1
+
+/-- the recovery frame of position 0 after it has called `Next()` -/
+def base : List Frame := [Frame.fn 0 .recover [], Frame.loop]
+
+/-- Invariant of the repaired recovery: nothing has escaped, and the stack is one of
+    * recovery about to call `Next()`;
+    * anything at all (`top`) on top of the `Next` activation called by recovery;
+    * recovery about to return, ServeHTTP's own `Next` activation, or nothing — and then the chain is `Done`. -/
+def Inv (cfg : Cfg) (progs : List Prog) (s : St) : Prop :=
+  s.escaped = none ∧ 0 ≤ s.idx ∧
+  (s.stack = [Frame.fn 0 .recover [.next], Frame.loop] ∨
+   (∃ top, s.stack = top ++ Frame.loop :: base) ∨
+   ((s.stack = base ∨ s.stack = [Frame.loop] ∨ s.stack = []) ∧ Done cfg progs s))
+
+theorem lemma_unwind_guarded (cfg : Cfg) (hab : cfg.abortOnRecover = true) (progs : List Prog) (v : Nat)
+    (top : List Frame) (s : St) (hesc : s.escaped = none) (hidx : 0 ≤ s.idx) :
+    Inv cfg progs (unwind cfg v (top ++ Frame.loop :: base) s) := by
+  induction top generalizing s with
+  | nil =>
+    simp only [List.nil_append, base, unwind]
+    refine ⟨by simpa [St.write] using hesc, by simpa [St.write] using hidx, Or.inr (Or.inr ⟨Or.inl rfl, Or.inl ?_⟩)⟩
+    simp [St.stopped, St.write, hab]
+  | cons f t ih =>
+    cases f with
+    | loop => simpa [unwind] using ih s hesc hidx
+    | fn k fk acts =>
+      cases fk with
+      | sub => simpa [unwind] using ih s hesc hidx
+      | plain => simpa [unwind] using ih _ (by simpa using hesc) (by simpa using hidx)
+      | recover =>
+        simp only [List.cons_append, unwind]
+        exact ⟨by simpa [St.write] using hesc, by simpa [St.write] using hidx,
+          Or.inr (Or.inl ⟨Frame.fn k .recover [] :: t, by simp [St.write]⟩)⟩
+
+/-- the loop head of a `Next` whose caller's stack is `stk` -/
+theorem lemma_loopHead_inv (cfg : Cfg) (progs : List Prog) (s : St) (top : List Frame)
+    (hesc : s.escaped = none) (hidx : 0 ≤ s.idx) (hst : s.stack = top ++ base)
+    (hcase : top = [] ∨ ∃ t, top = t ++ [Frame.loop]) :
+    Inv cfg progs (loopHead cfg progs s) := by
+  unfold loopHead
+  by_cases hc : 0 ≤ s.idx ∧ s.idx < progs.length
+  · by_cases hs : s.stopped cfg = true
+    · simp only [hc, and_self, if_true, hs]
+      rcases hcase with rfl | ⟨t, rfl⟩
+      · exact ⟨hesc, hidx, Or.inr (Or.inr ⟨Or.inl (by simpa using hst), Or.inl hs⟩)⟩
+      · exact ⟨hesc, hidx, Or.inr (Or.inl ⟨t, by simp [hst]⟩)⟩
+    · simp only [hc, and_self, if_true, hs]
+      refine ⟨hesc, hidx, Or.inr (Or.inl ?_)⟩
+      rcases hcase with rfl | ⟨t, rfl⟩
+      · exact ⟨[Frame.fn s.idx.toNat (progs.getD s.idx.toNat default).fk (progs.getD s.idx.toNat default).acts],
+          by simp [hst]⟩
+      · exact ⟨Frame.fn s.idx.toNat (progs.getD s.idx.toNat default).fk (progs.getD s.idx.toNat default).acts ::
+          Frame.loop :: t, by simp [hst]⟩
+  · simp only [hc, if_false]
+    rcases hcase with rfl | ⟨t, rfl⟩
+    · refine ⟨hesc, hidx, Or.inr (Or.inr ⟨Or.inl (by simpa using hst), Or.inr ?_⟩)⟩
+      have : ¬ (s.idx < progs.length) := fun h => hc ⟨hidx, h⟩
+      omega
+    · exact ⟨hesc, hidx, Or.inr (Or.inl ⟨t, by simp [hst]⟩)⟩
+
+theorem lemma_step_inv (cfg : Cfg) (hab : cfg.abortOnRecover = true) (progs : List Prog) (s : St)
+    (h : Inv cfg progs s) : Inv cfg progs (step cfg progs s) := by
+  obtain ⟨hesc, hidx, hshape⟩ := h
+  rcases hshape with hst | ⟨top, hst⟩ | ⟨hst, hd⟩
+  · -- recovery calls Next()
+    simp only [step, hst, callNext]
+    exact lemma_loopHead_inv cfg progs _ [] hesc (by simp; omega) (by simp [base]) (Or.inl rfl)
+  · cases top with
+    | nil =>
+      -- the Next activation called by recovery continues its loop
+      simp only [List.nil_append] at hst
+      simp only [step, hst]
+      exact lemma_loopHead_inv cfg progs _ [] hesc (by simp; omega) (by simp) (Or.inl rfl)
+    | cons f t =>
+      simp only [List.cons_append] at hst
+      cases f with
+      | loop =>
+        simp only [step, hst]
+        exact lemma_loopHead_inv cfg progs _ (t ++ [Frame.loop]) hesc (by simp; omega) (by simp) (Or.inr ⟨t, rfl⟩)
+      | fn k fk acts =>
+        cases acts with
+        | nil =>
+          simp only [step, hst]
+          exact ⟨hesc, hidx, Or.inr (Or.inl ⟨t, rfl⟩)⟩
+        | cons a as =>
+          cases a with
+          | ret => simp only [step, hst]; exact ⟨hesc, hidx, Or.inr (Or.inl ⟨t, rfl⟩)⟩
+          | abort => simp only [step, hst]; exact ⟨hesc, hidx, Or.inr (Or.inl ⟨Frame.fn k fk as :: t, rfl⟩)⟩
+          | cancel => simp only [step, hst]; exact ⟨hesc, hidx, Or.inr (Or.inl ⟨Frame.fn k fk as :: t, rfl⟩)⟩
+          | write =>
+            simp only [step, hst]
+            exact ⟨by simpa [St.write] using hesc, by simpa [St.write] using hidx,
+              Or.inr (Or.inl ⟨Frame.fn k fk as :: t, by simp [St.write]⟩)⟩
+          | call b =>
+            simp only [step, hst]
+            exact ⟨hesc, hidx, Or.inr (Or.inl ⟨Frame.fn k .sub b :: Frame.fn k fk as :: t, rfl⟩)⟩
+          | next =>
+            simp only [step, hst, callNext]
+            exact lemma_loopHead_inv cfg progs _ (Frame.fn k fk as :: t ++ [Frame.loop]) hesc (by simp; omega)
+              (by simp) (Or.inr ⟨Frame.fn k fk as :: t, rfl⟩)
+          | panic v =>
+            simp only [step, hst]
+            have := lemma_unwind_guarded cfg hab progs v (Frame.fn k fk as :: t) s hesc hidx
+            simpa using this
+  · -- the chain is over: whatever is left on the stack returns, nothing is entered
+    have hdone' : ∀ s' : St, s'.idx = s.idx + 1 → s'.aborted = s.aborted → s'.cancelled = s.cancelled →
+        Done cfg progs s' := by
+      intro s' h1 h2 h3
+      rcases hd with h | h
+      · left; simpa [St.stopped, h2, h3] using h
+      · right; omega
+    rcases hst with hst | hst | hst
+    · simp only [step, hst, base]
+      exact ⟨hesc, hidx, Or.inr (Or.inr ⟨Or.inr (Or.inl rfl), by
+        rcases hd with h | h
+        · left; simpa [St.stopped] using h
+        · right; simpa using h⟩)⟩
+    · simp only [step, hst, loopHead]
+      have hnot : ¬ ((0 ≤ s.idx + 1 ∧ s.idx + 1 < progs.length) ∧ ¬ (St.stopped cfg { s with idx := s.idx + 1, stack := [] } = true)) := by
+        rintro ⟨⟨_, h2⟩, h3⟩
+        rcases hd with h | h
+        · exact h3 (by simpa [St.stopped] using h)
+        · omega
+      by_cases hc : 0 ≤ s.idx + 1 ∧ s.idx + 1 < progs.length
+      · by_cases hs : St.stopped cfg { s with idx := s.idx + 1, stack := [] } = true
+        · simp only [hc, and_self, if_true, hs]
+          exact ⟨hesc, by simp; omega, Or.inr (Or.inr ⟨Or.inr (Or.inr rfl), Or.inl hs⟩)⟩
+        · exact absurd ⟨hc, hs⟩ hnot
+      · simp only [hc, if_false]
+        refine ⟨hesc, by simp; omega, Or.inr (Or.inr ⟨Or.inr (Or.inr rfl), ?_⟩)⟩
+        exact hdone' _ rfl rfl rfl
+    · simp only [step, hst]
+      exact ⟨hesc, hidx, Or.inr (Or.inr ⟨Or.inr (Or.inr hst), hd⟩)⟩
+
+theorem lemma_run_inv (cfg : Cfg) (hab : cfg.abortOnRecover = true) (progs : List Prog) (n : Nat) (s : St)
+    (h : Inv cfg progs s) : Inv cfg progs (run cfg progs n s) := by
+  induction n generalizing s with
+  | zero => exact h
+  | succ n ih => exact ih _ (lemma_step_inv cfg hab progs s h)
+
+theorem lemma_start_inv (cfg : Cfg) (rest : List Prog) :
+    Inv cfg (recoveryMw :: rest) (start cfg (recoveryMw :: rest)) := by
+  have h : start cfg (recoveryMw :: rest) =
+      { init with idx := 0, stack := [Frame.fn 0 .recover [.next], Frame.loop], trace := [Ev.enter 0] } := by
+    simp [start, callNext, loopHead, init, St.stopped, recoveryMw, Prog.fk]
+  rw [h]
+  exact ⟨rfl, by simp, Or.inl rfl⟩
+
+/-- **Containment.** With the recovery middleware first in the chain (the app default) and
+    `handlePanic` aborting the chain (the code after the K10c fix), no panic — whatever its value,
+    at whatever position, before or after `Next()`, before or after a write, inside nested calls,
+    however many handlers panic — ever leaves `ServeHTTP`: for every chain, every handler program
+    and every number of steps. -/
+theorem recovery_contains (cfg : Cfg) (hab : cfg.abortOnRecover = true) (rest : List Prog) (n : Nat) :
+    (run cfg (recoveryMw :: rest) n (start cfg (recoveryMw :: rest))).escaped = none :=
+  (lemma_run_inv cfg hab _ n _ (lemma_start_inv cfg rest)).1
+
+/-- non-vacuity: panics do happen and are caught — five handlers, three of them panic at different
+    sites; without recovery in front the first of them escapes -/
+example :
+    let rest : List Prog := [{ acts := [.write, .next, .panic 3] }, { acts := [.call [.next, .panic 0]] },
+                             { acts := [.next] }, { acts := [.panic 4] }, { acts := [.panic 1] }]
+    (exec {} (recoveryMw :: rest)).escaped = none ∧
+    (exec {} (recoveryMw :: rest)).body = [.h 1, .rec500] ∧
+    (exec {} rest).escaped = some 4 := by decide
+
+/-! ### "the client receives a 500 if nothing had been written" -/
+
+theorem lemma_unwind_status (cfg : Cfg) (v : Nat) (top : List Frame) (s : St) (h : s.status = none) :
+    (unwind cfg v (top ++ Frame.loop :: base) s).status = some Chunk.rec500 := by
+  induction top generalizing s with
+  | nil => simp [base, unwind, St.write, h]
+  | cons f t ih =>
+    cases f with
+    | loop => simpa [unwind] using ih s h
+    | fn k fk acts =>
+      cases fk with
+      | sub => simpa [unwind] using ih s h
+      | plain => simpa [unwind] using ih _ (by simpa using h)
+      | recover => simp [unwind, St.write, h]
+
+/-- the status line, once sent, is never replaced (first `WriteHeader` wins) -/
+theorem lemma_unwind_status_keep (cfg : Cfg) (v : Nat) (st : List Frame) (s : St) (c : Chunk)
+    (h : s.status = some c) : (unwind cfg v st s).status = some c := by
+  induction st generalizing s with
+  | nil => simpa [unwind] using h
+  | cons f t ih =>
+    cases f with
+    | loop => simpa [unwind] using ih s h
+    | fn k fk acts =>
+      cases fk with
+      | sub => simpa [unwind] using ih s h
+      | plain => simpa [unwind] using ih _ (by simpa using h)
+      | recover => simp [unwind, St.write, h]
+
+theorem lemma_loopHead_status (cfg : Cfg) (progs : List Prog) (s : St) :
+    (loopHead cfg progs s).status = s.status := by
+  unfold loopHead
+  split
+  · split <;> rfl
+  · rfl
+
+theorem lemma_step_status_keep (cfg : Cfg) (progs : List Prog) (s : St) (c : Chunk) (h : s.status = some c) :
+    (step cfg progs s).status = some c := by
+  unfold step
+  split
+  · exact h
+  · rw [lemma_loopHead_status]; exact h
+  · exact h
+  · split
+    · exact h
+    · exact h
+    · exact h
+    · simp [St.write, h]
+    · unfold callNext; rw [lemma_loopHead_status]; exact h
+    · exact h
+    · exact lemma_unwind_status_keep cfg _ _ s c h
+
+theorem status_sticky (cfg : Cfg) (progs : List Prog) (n : Nat) (s : St) (c : Chunk) (h : s.status = some c) :
+    (run cfg progs n s).status = some c := by
+  induction n generalizing s with
+  | zero => exact h
+  | succ n ih => exact ih _ (lemma_step_status_keep cfg progs s c h)
+
+/-- the machine is about to execute `panic v` -/
+def aboutToPanic (s : St) : Prop :=
+  ∃ k fk v as rest, s.stack = Frame.fn k fk (Act.panic v :: as) :: rest
+
+/-- **500 if nothing had been written.** In any reachable state of a chain with recovery first: if
+    the next thing to happen is a panic and no status line has been sent yet, then from the next
+    step on — forever — the status line is recovery's 500. -/
+theorem recovery_answers_500 (cfg : Cfg) (hab : cfg.abortOnRecover = true) (rest : List Prog) (n m : Nat) :
+    let s := run cfg (recoveryMw :: rest) n (start cfg (recoveryMw :: rest))
+    aboutToPanic s → s.status = none →
+    (run cfg (recoveryMw :: rest) (m + 1) s).status = some Chunk.rec500 := by
+  intro s hp hs
+  have hinv := lemma_run_inv cfg hab _ n _ (lemma_start_inv cfg rest)
+  obtain ⟨k, fk, v, as, rst, hst⟩ := hp
+  obtain ⟨_, _, hshape⟩ := hinv
+  have hstep : (step cfg (recoveryMw :: rest) s).status = some Chunk.rec500 := by
+    rcases hshape with h | ⟨top, h⟩ | ⟨h, _⟩
+    · rw [hst] at h; simp at h
+    · cases top with
+      | nil => rw [hst] at h; simp at h
+      | cons f t =>
+        rw [hst] at h
+        simp only [List.cons_append, List.cons.injEq] at h
+        obtain ⟨_, h2⟩ := h
+        simp only [step, hst]
+        have := lemma_unwind_status cfg v (Frame.fn k fk as :: t) s hs
+        simpa [h2] using this
+    · rcases h with h | h | h <;> rw [hst] at h <;> simp [base] at h
+  show (run cfg _ (m + 1) s).status = _
+  simp only [run]
+  exact status_sticky cfg _ m _ _ hstep
+
+/-- non-vacuity: a reachable state that is about to panic with nothing written -/
+example :
+    let rest : List Prog := [{ acts := [.next] }, { acts := [.call [.panic 2]] }]
+    let s := run {} (recoveryMw :: rest) 3 (start {} (recoveryMw :: rest))
+    (∃ k fk v as rst, s.stack = Frame.fn k fk (Act.panic v :: as) :: rst) ∧ s.status = none :=
+  ⟨⟨2, .sub, 2, [], [.fn 2 .plain [], .loop, .fn 1 .plain [], .loop, .fn 0 .recover [], .loop], rfl⟩, by decide⟩
+
+end Recovery
+
+/-! ## Part 2 — the timeout middleware, over all schedules -/
+section TimeoutMw
+open Rivaas.Timeout
+
+theorem lemma_t_run_cons (waitH : Bool) (t : Tok) (ts : List Tok) (s : St) :
+    run waitH (t :: ts) s = run waitH ts (step waitH s t) := rfl
+
+/-- lift a step invariant to every schedule -/
+theorem lemma_t_run_induct (waitH : Bool) (P : St → Prop) (hstep : ∀ s t, P s → P (step waitH s t))
+    (sched : List Tok) (s : St) (h : P s) : P (run waitH sched s) := by
+  induction sched generalizing s with
+  | nil => exact h
+  | cons t ts ih => exact ih _ (hstep s t h)
+
+/-! ### as shipped: the three ways in which the response is not "exactly one" (recorded findings) -/
+
+/-- K10a: deadline, timeout body, then the handler (which ignores the context) writes: the body holds
+    both JSON values. Reproduced on the real code with this very order forced by channels. -/
+theorem timeout_interleave_witness :
+    let s := run false [.h, .h, .rc, .h, .rc, .h, .h, .h, .rd]
+      (init [.fireDl, .awaitCtx, .awaitE, .awaitT, .write])
+    s.rpc = .returned ∧ s.body = [.t408, .h] ∧ timeoutOK (obsOf s) = false := by decide
+
+/-- K10a with nothing but the real timer and a handler that is merely slow: `dl` fires, the
+    middleware answers 408, the handler's write lands behind it -/
+theorem timeout_interleave_timer_witness :
+    let s := run false [.dl, .rc, .rc, .h, .h, .rd] (init [.write])
+    s.rpc = .returned ∧ s.body = [.t408, .h] ∧ timeoutOK (obsOf s) = false := by decide
+
+/-- K10b: the parent context is cancelled — the middleware returns (and `ServeHTTP` puts the
+    context back into the pool) while the handler goroutine is still running -/
+theorem parent_cancel_releases_early_witness :
+    let s := run false [.h, .h, .rc] (init [.firePc, .awaitCtx, .awaitRet])
+    s.rpc = .returned ∧ s.hDone = false ∧ s.releasedEarly = true ∧ timeoutOK (obsOf s) = false := by decide
+
+/-- K10d: the handler panics after the timeout body was written; the re-raised panic reaches
+    recovery, whose 500 body follows the 408 body -/
+theorem timeout_then_panic_witness :
+    let s := run false [.h, .h, .rc, .h, .rc, .h, .h, .rd]
+      (init [.fireDl, .awaitCtx, .awaitE, .awaitT, .panic 0])
+    s.rpc = .returned ∧ s.body = [.t408, .rec500] ∧ s.recovered = some 0 ∧ timeoutOK (obsOf s) = false := by decide
+
+/-! ### full-strength clauses (no exclusion) -/
+
+/-- invariant behind `timeout_repanics` and `timeout_waits_for_handler` -/
+def InvR (s : St) : Prop :=
+  (s.rpc ≠ .returned → s.recovered = none) ∧
+  (s.rpc = .returned → s.ctx ≠ .cancelled → s.hDone = true ∧ s.recovered = s.panicChan)
+
+theorem lemma_finishR (s : St) (hd : s.hDone = true) (hr : s.recovered = none) :
+    (finishR s).rpc = .returned ∧ (finishR s).hDone = true ∧ (finishR s).recovered = (finishR s).panicChan ∧
+    (finishR s).ctx = s.ctx := by
+  unfold finishR
+  split <;> simp_all [St.write]
+
+theorem lemma_stepH_invR (s : St) (h : InvR s) : InvR (stepH s) := by
+  obtain ⟨h1, h2⟩ := h
+  unfold stepH
+  split
+  · exact ⟨h1, h2⟩
+  · rename_i hnd
+    have hret : s.rpc = .returned → s.ctx = .cancelled := by
+      intro hr
+      by_cases hc : s.ctx = .cancelled
+      · exact hc
+      · exact absurd (h2 hr hc).1 hnd
+    split
+    all_goals (try split)
+    all_goals
+      refine ⟨fun hr => by simp_all [St.write], fun hr hc => ?_⟩
+      have := hret (by simpa [St.write] using hr)
+      simp_all [St.write]
+
+theorem lemma_stepR_invR (waitH pd : Bool) (s : St) (h : InvR s) : InvR (stepR waitH pd s) := by
+  obtain ⟨h1, h2⟩ := h
+  cases hpc : s.rpc with
+  | select =>
+    have hr : s.recovered = none := h1 (by simp [hpc])
+    simp only [stepR, hpc]
+    by_cases hcond : (s.hDone && (pd || s.ctx == .live)) = true
+    · have hd : s.hDone = true := by
+        cases hdd : s.hDone <;> simp_all
+      obtain ⟨f1, f2, f3, _⟩ := lemma_finishR s hd hr
+      simp only [hcond, if_true]
+      exact ⟨fun hn => absurd f1 hn, fun _ _ => ⟨f2, f3⟩⟩
+    · simp only [hcond, Bool.false_eq_true, if_false]
+      by_cases hl : s.ctx = .live
+      · simp only [hl, if_true]
+        exact ⟨fun _ => hr, fun hret => by simp [hpc] at hret⟩
+      · simp only [hl, if_false]
+        by_cases hdl : s.ctx = .deadline
+        · simp only [hdl, if_true]
+          exact ⟨fun _ => hr, fun hret => by simp at hret⟩
+        · simp only [hdl, if_false]
+          refine ⟨fun hn => by simp at hn, fun _ hc => ?_⟩
+          exfalso
+          apply hc
+          show s.ctx = .cancelled
+          cases hctx : s.ctx <;> simp_all
+  | thandler =>
+    have hr : s.recovered = none := h1 (by simp [hpc])
+    simp only [stepR, hpc]
+    split
+    · exact ⟨fun _ => hr, fun hret => by simp [hpc] at hret⟩
+    · exact ⟨fun _ => by simpa [St.write] using hr, fun hret => by simp [St.write] at hret⟩
+  | waitDone =>
+    have hr : s.recovered = none := h1 (by simp [hpc])
+    simp only [stepR, hpc]
+    split
+    · rename_i hd
+      obtain ⟨f1, f2, f3, _⟩ := lemma_finishR s hd hr
+      exact ⟨fun hn => absurd f1 hn, fun _ _ => ⟨f2, f3⟩⟩
+    · exact ⟨fun _ => hr, fun hret => by simp [hpc] at hret⟩
+  | returned =>
+    simp only [stepR, hpc]
+    exact ⟨h1, h2⟩
+
+theorem lemma_step_invR (waitH : Bool) (s : St) (t : Tok) (h : InvR s) : InvR (step waitH s t) := by
+  cases t with
+  | h => exact lemma_stepH_invR s h
+  | rd => exact lemma_stepR_invR waitH true s h
+  | rc => exact lemma_stepR_invR waitH false s h
+  | dl =>
+    obtain ⟨h1, h2⟩ := h
+    refine ⟨h1, fun hr hc => ?_⟩
+    apply h2 hr
+    intro hcc
+    simp [step, hcc] at hc
+  | pc =>
+    obtain ⟨h1, h2⟩ := h
+    refine ⟨h1, fun hr hc => ?_⟩
+    apply h2 hr
+    intro hcc
+    simp [step, hcc] at hc
+
+theorem lemma_init_invR (prog : List HAct) : InvR (init prog) := by
+  simp [InvR, init]
+
+/-- **Re-panic.** For every handler program and every schedule: when the middleware has returned
+    and the parent context was not cancelled, the handler goroutine has finished and whatever
+    panic it raised — before or after the deadline — has been re-raised on the request goroutine
+    and handled by recovery (`recovered = panicChan`, also when there was no panic). -/
+theorem timeout_repanics (waitH : Bool) (prog : List HAct) (sched : List Tok) :
+    let s := run waitH sched (init prog)
+    s.rpc = .returned → s.ctx ≠ .cancelled → s.recovered = s.panicChan := by
+  intro s hr hc
+  exact ((lemma_t_run_induct waitH InvR (lemma_step_invR waitH) sched _ (lemma_init_invR prog)).2 hr hc).2
+
+/-- **The timed-out request waits for its handler.** Without a parent cancel the context is never
+    handed back while the handler goroutine runs — for every schedule, deadline or not. -/
+theorem timeout_waits_for_handler (waitH : Bool) (prog : List HAct) (sched : List Tok) :
+    let s := run waitH sched (init prog)
+    s.rpc = .returned → s.ctx ≠ .cancelled → s.hDone = true := by
+  intro s hr hc
+  exact ((lemma_t_run_induct waitH InvR (lemma_step_invR waitH) sched _ (lemma_init_invR prog)).2 hr hc).1
+
+/-- non-vacuity: a run that ends `returned`, not cancelled, after a deadline and a late panic -/
+example :
+    let s := run true [.h, .h, .rc, .h, .h, .rd, .rd] (init [.fireDl, .awaitCtx, .awaitE, .panic 3])
+    s.rpc = .returned ∧ s.ctx ≠ .cancelled ∧ s.recovered = some 3 ∧ s.timedOut = true := by decide
+
+/-! ### at most one timeout body — every program, every schedule, no exclusion -/
+
+def InvT (s : St) : Prop :=
+  (s.tWritten = false ∧ s.body.count Chunk.t408 = 0) ∨
+  (s.tWritten = true ∧ s.body.count Chunk.t408 = 1 ∧ (s.rpc = .waitDone ∨ s.rpc = .returned))
+
+theorem lemma_finishR_fields (s : St) :
+    (finishR s).rpc = .returned ∧ (finishR s).tWritten = s.tWritten ∧
+    (finishR s).body.count Chunk.t408 = s.body.count Chunk.t408 ∧ (finishR s).releasedEarly = s.releasedEarly ∧
+    (finishR s).ctx = s.ctx ∧ (finishR s).hprog = s.hprog ∧ (finishR s).panicChan = s.panicChan := by
+  unfold finishR
+  split <;> simp [St.write, List.count_append]
+
+theorem lemma_stepH_fields (s : St) :
+    (stepH s).rpc = s.rpc ∧ (stepH s).tWritten = s.tWritten ∧ (stepH s).releasedEarly = s.releasedEarly ∧
+    (stepH s).recovered = s.recovered ∧ (stepH s).body.count Chunk.t408 = s.body.count Chunk.t408 := by
+  unfold stepH
+  split
+  · simp
+  · split
+    all_goals (try split)
+    all_goals simp [St.write, List.count_append]
+
+theorem lemma_step_invT (waitH : Bool) (s : St) (t : Tok) (h : InvT s) : InvT (step waitH s t) := by
+  have hR : ∀ pd, InvT (stepR waitH pd s) := by
+    intro pd
+    cases hpc : s.rpc with
+    | select =>
+      simp only [stepR, hpc]
+      have hf := lemma_finishR_fields s
+      rcases h with ⟨h1, h2⟩ | ⟨_, _, h3⟩
+      · split
+        · exact Or.inl ⟨by rw [hf.2.1]; exact h1, by rw [hf.2.2.1]; exact h2⟩
+        · split
+          · exact Or.inl ⟨h1, h2⟩
+          · split <;> exact Or.inl ⟨h1, h2⟩
+      · rcases h3 with h3 | h3 <;> simp [hpc] at h3
+    | thandler =>
+      simp only [stepR, hpc]
+      rcases h with ⟨h1, h2⟩ | ⟨_, _, h3⟩
+      · split
+        · exact Or.inl ⟨h1, h2⟩
+        · exact Or.inr ⟨rfl, by simp [St.write, List.count_append, h2], Or.inl rfl⟩
+      · rcases h3 with h3 | h3 <;> simp [hpc] at h3
+    | waitDone =>
+      simp only [stepR, hpc]
+      have hf := lemma_finishR_fields s
+      split
+      · rcases h with ⟨h1, h2⟩ | ⟨h1, h2, _⟩
+        · exact Or.inl ⟨by rw [hf.2.1]; exact h1, by rw [hf.2.2.1]; exact h2⟩
+        · exact Or.inr ⟨by rw [hf.2.1]; exact h1, by rw [hf.2.2.1]; exact h2, Or.inr hf.1⟩
+      · exact h
+    | returned => simp only [stepR, hpc]; exact h
+  cases t with
+  | h =>
+    have hf := lemma_stepH_fields s
+    show InvT (stepH s)
+    unfold InvT
+    rw [hf.1, hf.2.1, hf.2.2.2.2]
+    exact h
+  | rd => exact hR true
+  | rc => exact hR false
+  | dl => exact h
+  | pc => exact h
+
+/-- **Exactly one timeout response.** Whatever the handler does and however the two goroutines,
+    the timer and the client interleave, the timeout body is written at most once. -/
+theorem timeout_body_at_most_once (waitH : Bool) (prog : List HAct) (sched : List Tok) :
+    (run waitH sched (init prog)).body.count Chunk.t408 ≤ 1 := by
+  have := lemma_t_run_induct waitH InvT (lemma_step_invT waitH) sched (init prog) (Or.inl ⟨rfl, rfl⟩)
+  rcases this with ⟨_, h⟩ | ⟨_, h, _⟩ <;> omega
+
+/-! ### the partial theorem: outside the recorded classes the whole oracle holds -/
+
+theorem lemma_stepH_hprog (s : St) : ∀ a ∈ (stepH s).hprog, a ∈ s.hprog := by
+  unfold stepH
+  split
+  · exact fun a h => h
+  · split
+    all_goals (try split)
+    all_goals
+      intro a h
+      first
+        | exact h
+        | (simp only [St.write] at h; simp_all)
+
+/-- schedule without environment events of a kind -/
+def noTok (x : Tok) (sched : List Tok) : Prop := ∀ t ∈ sched, t ≠ x
+
+theorem lemma_t_run_induct' (waitH : Bool) (P : St → Prop) (ok : Tok → Prop)
+    (hstep : ∀ s t, ok t → P s → P (step waitH s t))
+    (sched : List Tok) (hs : ∀ t ∈ sched, ok t) (s : St) (h : P s) : P (run waitH sched s) := by
+  induction sched generalizing s with
+  | nil => exact h
+  | cons t ts ih =>
+    exact ih (fun t' ht' => hs t' (List.mem_cons_of_mem _ ht')) _ (hstep s t (hs t (List.mem_cons_self ..)) h)
+
+/-- (a) neither a deadline nor a cancellation can happen: the handler finishes first -/
+def InvA (s : St) : Prop :=
+  s.ctx = .live ∧ (∀ a ∈ s.hprog, a ≠ .fireDl ∧ a ≠ .firePc) ∧ s.releasedEarly = false ∧
+  s.tWritten = false ∧ s.body.count Chunk.t408 = 0 ∧ (s.recovered.isSome → Chunk.rec500 ∈ s.body) ∧
+  (s.rpc = .select ∨ s.rpc = .returned)
+
+theorem lemma_stepH_invA (s : St) (h : InvA s) : InvA (stepH s) := by
+  obtain ⟨h1, h2, h3, h4, h5, h6, h7⟩ := h
+  have hf := lemma_stepH_fields s
+  have hp := lemma_stepH_hprog s
+  refine ⟨?_, fun a ha => h2 a (hp a ha), by rw [hf.2.2.1]; exact h3, by rw [hf.2.1]; exact h4,
+    by rw [hf.2.2.2.2]; exact h5, ?_, by rw [hf.1]; exact h7⟩
+  · unfold stepH
+    split
+    · exact h1
+    · split
+      all_goals (try split)
+      all_goals first
+        | exact h1
+        | exact h1
+        | (exfalso; have := h2 _ (by rw [‹s.hprog = _›]; exact List.mem_cons_self ..); simp at this)
+  · rw [hf.2.2.2.1]
+    intro hr
+    have := h6 hr
+    unfold stepH
+    split
+    · exact this
+    · split
+      all_goals (try split)
+      all_goals simp [St.write, this]
+
+theorem lemma_stepR_invA (waitH pd : Bool) (s : St) (h : InvA s) : InvA (stepR waitH pd s) := by
+  obtain ⟨h1, h2, h3, h4, h5, h6, h7⟩ := h
+  have hfin : InvA (finishR s) := by
+    have hf := lemma_finishR_fields s
+    refine ⟨by rw [hf.2.2.2.2.1]; exact h1, by rw [hf.2.2.2.2.2.1]; exact h2, by rw [hf.2.2.2.1]; exact h3,
+      by rw [hf.2.1]; exact h4, by rw [hf.2.2.1]; exact h5, ?_, Or.inr hf.1⟩
+    unfold finishR
+    split
+    · intro _; simp [St.write]
+    · exact h6
+  rcases h7 with hpc | hpc
+  · simp only [stepR, hpc, h1]
+    split
+    · exact hfin
+    · simp; exact ⟨h1, h2, h3, h4, h5, h6, Or.inl hpc⟩
+  · simp only [stepR, hpc]; exact ⟨h1, h2, h3, h4, h5, h6, Or.inr hpc⟩
+
+theorem lemma_step_invA (waitH : Bool) (s : St) (t : Tok) (ht : t ≠ .dl ∧ t ≠ .pc) (h : InvA s) :
+    InvA (step waitH s t) := by
+  cases t with
+  | h => exact lemma_stepH_invA s h
+  | rd => exact lemma_stepR_invA waitH true s h
+  | rc => exact lemma_stepR_invA waitH false s h
+  | dl => exact absurd rfl ht.1
+  | pc => exact absurd rfl ht.2
+
+/-- (b) no cancellation, and the handler neither writes nor panics: at most the timeout body -/
+def InvB (s : St) : Prop :=
+  s.ctx ≠ .cancelled ∧ (∀ a ∈ s.hprog, a ≠ .firePc ∧ a ≠ .write ∧ ∀ v, a ≠ .panic v) ∧
+  s.panicChan = none ∧ s.recovered = none ∧ s.releasedEarly = false ∧
+  ((s.body = [] ∧ s.status = none) ∨ (s.body = [Chunk.t408] ∧ s.status = some Chunk.t408 ∧
+    (s.rpc = .waitDone ∨ s.rpc = .returned)))
+
+theorem lemma_stepH_invB (s : St) (h : InvB s) : InvB (stepH s) := by
+  obtain ⟨h1, h2, h3, h4, h5, h6⟩ := h
+  have hp := lemma_stepH_hprog s
+  have hkeep : ∀ s' : St, s'.ctx ≠ .cancelled → (∀ a ∈ s'.hprog, a ∈ s.hprog) → s'.panicChan = none →
+      s'.recovered = s.recovered → s'.releasedEarly = s.releasedEarly → s'.body = s.body →
+      s'.status = s.status → s'.rpc = s.rpc → InvB s' := by
+    intro s' c1 c2 c3 c4 c5 c6 c7 c8
+    exact ⟨c1, fun a ha => h2 a (c2 a ha), c3, by rw [c4]; exact h4, by rw [c5]; exact h5, by rw [c6, c7, c8]; exact h6⟩
+  unfold stepH
+  split
+  · exact ⟨h1, h2, h3, h4, h5, h6⟩
+  · split
+    · exact hkeep _ h1 (by simp) h3 rfl rfl rfl rfl rfl
+    · rename_i r hpr
+      exact absurd rfl (h2 .write (by rw [hpr]; exact List.mem_cons_self ..)).2.1
+    · rename_i r hpr
+      refine hkeep _ ?_ (by intro a ha; rw [hpr]; exact List.mem_cons_of_mem _ ha) h3 rfl rfl rfl rfl rfl
+      show (if s.ctx = .live then Ctx.deadline else s.ctx) ≠ .cancelled
+      split <;> simp_all
+    · rename_i r hpr
+      exact absurd rfl (h2 .firePc (by rw [hpr]; exact List.mem_cons_self ..)).1
+    · rename_i r hpr
+      split
+      · exact ⟨h1, h2, h3, h4, h5, h6⟩
+      · exact hkeep _ h1 (by intro a ha; rw [hpr]; exact List.mem_cons_of_mem _ ha) h3 rfl rfl rfl rfl rfl
+    · rename_i r hpr
+      split
+      · exact hkeep _ h1 (by intro a ha; rw [hpr]; exact List.mem_cons_of_mem _ ha) h3 rfl rfl rfl rfl rfl
+      · exact ⟨h1, h2, h3, h4, h5, h6⟩
+    · rename_i r hpr
+      split
+      · exact hkeep _ h1 (by intro a ha; rw [hpr]; exact List.mem_cons_of_mem _ ha) h3 rfl rfl rfl rfl rfl
+      · exact ⟨h1, h2, h3, h4, h5, h6⟩
+    · rename_i r hpr
+      exact hkeep _ h1 (by intro a ha; rw [hpr]; exact List.mem_cons_of_mem _ ha) h3 rfl rfl rfl rfl rfl
+    · rename_i r hpr
+      split
+      · exact hkeep _ h1 (by intro a ha; rw [hpr]; exact List.mem_cons_of_mem _ ha) h3 rfl rfl rfl rfl rfl
+      · exact ⟨h1, h2, h3, h4, h5, h6⟩
+    · rename_i v r hpr
+      exact absurd rfl ((h2 (.panic v) (by rw [hpr]; exact List.mem_cons_self ..)).2.2 v)
+
+theorem lemma_stepR_invB (waitH pd : Bool) (s : St) (h : InvB s) : InvB (stepR waitH pd s) := by
+  obtain ⟨h1, h2, h3, h4, h5, h6⟩ := h
+  have hfin : finishR s = { s with rpc := .returned } := by simp [finishR, h3]
+  cases hpc : s.rpc with
+  | select =>
+    simp only [stepR, hpc]
+    have h6' : s.body = [] ∧ s.status = none := by
+      rcases h6 with h | ⟨_, _, h | h⟩
+      · exact h
+      · simp [hpc] at h
+      · simp [hpc] at h
+    split
+    · rw [hfin]; exact ⟨h1, h2, h3, h4, h5, Or.inl h6'⟩
+    · split
+      · exact ⟨h1, h2, h3, h4, h5, h6⟩
+      · split
+        · exact ⟨h1, h2, h3, h4, h5, Or.inl h6'⟩
+        · rename_i hl hd
+          exfalso; apply h1
+          cases hctx : s.ctx <;> simp_all
+  | thandler =>
+    simp only [stepR, hpc]
+    have h6' : s.body = [] ∧ s.status = none := by
+      rcases h6 with h | ⟨_, _, h | h⟩
+      · exact h
+      · simp [hpc] at h
+      · simp [hpc] at h
+    split
+    · exact ⟨h1, h2, h3, h4, h5, h6⟩
+    · exact ⟨h1, h2, h3, h4, h5, Or.inr ⟨by simp [St.write, h6'.1], by simp [St.write, h6'.2], Or.inl rfl⟩⟩
+  | waitDone =>
+    simp only [stepR, hpc]
+    split
+    · rw [hfin]
+      refine ⟨h1, h2, h3, h4, h5, ?_⟩
+      rcases h6 with h | ⟨ha, hb, _⟩
+      · exact Or.inl h
+      · exact Or.inr ⟨ha, hb, Or.inr rfl⟩
+    · exact ⟨h1, h2, h3, h4, h5, h6⟩
+  | returned => simp only [stepR, hpc]; exact ⟨h1, h2, h3, h4, h5, h6⟩
+
+theorem lemma_step_invB (waitH : Bool) (s : St) (t : Tok) (ht : t ≠ .pc) (h : InvB s) :
+    InvB (step waitH s t) := by
+  cases t with
+  | h => exact lemma_stepH_invB s h
+  | rd => exact lemma_stepR_invB waitH true s h
+  | rc => exact lemma_stepR_invB waitH false s h
+  | dl =>
+    obtain ⟨h1, h2, h3, h4, h5, h6⟩ := h
+    refine ⟨?_, h2, h3, h4, h5, h6⟩
+    show (if s.ctx = .live then Ctx.deadline else s.ctx) ≠ .cancelled
+    split <;> simp_all
+  | pc => exact absurd rfl ht
+
+theorem lemma_contains_false {α} [BEq α] [LawfulBEq α] (l : List α) (x : α) (h : l.contains x = false) :
+    ∀ a ∈ l, a ≠ x := by
+  intro a ha hax
+  subst hax
+  have : l.contains a = true := by simpa using ha
+  rw [this] at h
+  exact Bool.noConfusion h
+
+/-- **Partial theorem.** Outside the three recorded classes — K10b (the parent context can be
+    cancelled), K10a (a deadline is possible and the handler writes), K10d (a deadline is possible
+    and the handler panics), each a decidable predicate on the *input* — the as-is middleware
+    satisfies the whole timeout oracle whenever it has returned: for every handler program and
+    every schedule of the two goroutines and the timer. -/
+theorem timeout_partial (waitH : Bool) (prog : List HAct) (sched : List Tok)
+    (ha : dK10a prog sched = false) (hb : dK10b prog sched = false) (hd : dK10d prog sched = false) :
+    (run waitH sched (init prog)).rpc = .returned → timeoutOK (obsOf (run waitH sched (init prog))) = true := by
+  intro hret
+  simp only [dK10b, cancelPossible, Bool.or_eq_false_iff] at hb
+  have hnpc_prog := lemma_contains_false _ _ hb.1
+  have hnpc : ∀ t ∈ sched, t ≠ Tok.pc := lemma_contains_false _ _ hb.2
+  have hR := lemma_t_run_induct waitH InvR (lemma_step_invR waitH) sched _ (lemma_init_invR prog)
+  by_cases hdp : deadlinePossible prog sched = true
+  · -- a deadline is possible: then the handler neither writes nor panics
+    have hw : hasWrite prog = false := by simpa [dK10a, hdp] using ha
+    have hp : hasPanic prog = false := by simpa [dK10d, hdp] using hd
+    have hnw := lemma_contains_false _ _ hw
+    have hnp : ∀ a ∈ prog, ∀ v, a ≠ HAct.panic v := by
+      intro a ha' v hv
+      subst hv
+      have : hasPanic prog = true := by
+        unfold hasPanic
+        exact List.any_eq_true.mpr ⟨_, ha', rfl⟩
+      simp [hp] at this
+    have h0 : InvB (init prog) :=
+      ⟨by simp [init], fun a ha' => ⟨hnpc_prog a ha', hnw a ha', hnp a ha'⟩, rfl, rfl, rfl, Or.inl ⟨rfl, rfl⟩⟩
+    have hB := lemma_t_run_induct' waitH InvB (· ≠ Tok.pc) (fun s t ht h => lemma_step_invB waitH s t ht h)
+      sched hnpc _ h0
+    generalize run waitH sched (init prog) = s at *
+    obtain ⟨_, _, b3, _, b5, b6⟩ := hB
+    rcases b6 with ⟨hb1, hb2⟩ | ⟨hb1, hb2, _⟩
+    · simp [timeoutOK, obsOf, b3, b5, hb1]
+    · simp [timeoutOK, obsOf, b3, b5, hb1, hb2]
+  · -- no deadline, no cancellation: the handler finishes first
+    have hdp' : deadlinePossible prog sched = false := by simpa using hdp
+    simp only [deadlinePossible, Bool.or_eq_false_iff] at hdp'
+    have hndl_prog := lemma_contains_false _ _ hdp'.1
+    have hndl : ∀ t ∈ sched, t ≠ Tok.dl := lemma_contains_false _ _ hdp'.2
+    have h0 : InvA (init prog) :=
+      ⟨rfl, fun a ha' => ⟨hndl_prog a ha', hnpc_prog a ha'⟩, rfl, rfl, rfl, by simp [init], Or.inl rfl⟩
+    have hA := lemma_t_run_induct' waitH InvA (fun t => t ≠ Tok.dl ∧ t ≠ Tok.pc)
+      (fun s t ht h => lemma_step_invA waitH s t ht h) sched (fun t ht => ⟨hndl t ht, hnpc t ht⟩) _ h0
+    generalize run waitH sched (init prog) = s at *
+    obtain ⟨a1, _, a3, _, a5, a6, _⟩ := hA
+    have hrec := (hR.2 hret (by rw [a1]; simp)).2
+    have hnot : s.body.contains Chunk.t408 = false := by
+      cases hc : s.body.contains Chunk.t408
+      · rfl
+      · have hm : Chunk.t408 ∈ s.body := by simpa using hc
+        have := List.count_pos_iff.mpr hm
+        omega
+    simp only [timeoutOK, obsOf, a3, hnot, a5]
+    cases hp : s.panicChan.isSome
+    · simp
+    · simp
+      exact a6 (by rw [hrec]; exact hp)
+
+/-- non-vacuity of the partial theorem, both branches: a handler that writes and finishes with no
+    deadline around; and an overrunning handler that honours the context -/
+example :
+    dK10a [.write, .write] [.h, .h, .h, .rd] = false ∧ dK10b [.write, .write] [.h, .h, .h, .rd] = false ∧
+    dK10d [.write, .write] [.h, .h, .h, .rd] = false ∧
+    (run false [.h, .h, .h, .rd] (init [.write, .write])).rpc = .returned ∧
+    (run false [.h, .h, .h, .rd] (init [.write, .write])).body = [.h, .h] := by decide
+
+example :
+    let prog : List HAct := [.awaitCtx]
+    let sched : List Tok := [.h, .dl, .rc, .h, .rc, .h, .rd]
+    dK10a prog sched = false ∧ dK10b prog sched = false ∧ dK10d prog sched = false ∧
+    (run false sched (init prog)).rpc = .returned ∧ (run false sched (init prog)).body = [.t408] ∧
+    (run false sched (init prog)).timedOut = true := by decide
+
+end TimeoutMw
+
+end Rivaas.C10
